@@ -43,6 +43,25 @@ def handleStruct (st : St) (op : String) (j : Json) : Option (D (St × Json)) :=
         | .ok s => eRes eNode (S.apply s d)
         | .error e => eErr e)
     | _ => return (st, eRes eStep r)
+  -- the guards of the "approved edit applies" theorems of Props/C12.lean (`canSplit_split_applies`, …)
+  | "structGuard" => some do
+    let S ← getSchema st j
+    let d ← node (← field j "doc")
+    let k ← str (← field j "k")
+    match k with
+    | "split" => return (st, ok (Json.bool (splitGuard S d (← nat (← field j "pos")))))
+    | "join" => return (st, ok (Json.bool (joinGuard S d (← nat (← field j "pos")) && textStableC S)))
+    | "wrap" =>
+      let ws ← wrappersOf (← field j "wrappers")
+      return (st, ok (Json.bool (wrapGuard S d (← nat (← field j "from")) (← nat (← field j "to"))
+        (← nat (← field j "depth")) ws && wrapBuilds S ws)))
+    | "lift" =>
+      let (a, b, depth, target) := (← nat (← field j "from"), ← nat (← field j "to"), ← nat (← field j "depth"),
+        ← nat (← field j "target"))
+      -- `liftTarget_lift_applies` / `liftTarget_lift_applies_flat`; `flat` says which of the two guards held
+      return (st, Json.mkObj [("ok", Json.bool ((liftFlatGuard d a b depth target || liftGuard S d a b depth target)
+        && textStableC S)), ("flat", Json.bool (liftFlatGuard d a b depth target))])
+    | _ => throw s!"bad structGuard kind {k}"
   -- the remaining helpers (PM/Structure2.lean); `{"err":"raises"}` = the model says the code raises
   | "canJoin" => some do
     let S ← getSchema st j
